@@ -3,7 +3,7 @@
    (full object tree: class skeleton WITH the stored scalars/vectors, domain, range, is_linear)
    or the error class it raised, and values at some points (out-of-place and in-place). *)
 From Coq Require Import ZArith QArith List Bool.
-From Verif Require Import Base.Num Base.Vec Base.Check C04.Model C04.ModelIP C04.Cplx.
+From Verif Require Import Base.Num Base.Vec Base.Check C04.Model C04.ModelIP C04.Cplx Gen.OpTables C04.Tables.
 Import ListNotations.
 
 Section Corr.
@@ -86,7 +86,9 @@ Arguments case T : clear implicits.
 (* ---- real spaces: carrier Q ---- *)
 Definition tol : Q := 1 # 1000000000000.
 Definition qcl (impl model : Q) : bool := Qclose tol tol impl model.
-Definition check_real (k : case Q) : bool := check qcl k.
+(* the variant MEASURED on the running code must be the one READ from the regenerated table *)
+Definition vt_consistent (vt : variant) : bool := Bool.eqb (v_frvec_lin vt) frvec_lin_of_table.
+Definition check_real (k : case Q) : bool := check qcl k && vt_consistent (c_vt k).
 Definition qMat := @LMat Q _.
 Definition qAff := @LAff Q _.
 Definition qSq := @LSq Q _.
@@ -101,7 +103,7 @@ Definition qNQuad := @NQuad Q _.
 (* ---- complex spaces: carrier Q*Q (Gaussian rationals) ---- *)
 Definition ccl (impl model : QC) : bool :=
   Qclose tol tol (fst impl) (fst model) && Qclose tol tol (snd impl) (snd model).
-Definition check_cplx (k : case QC) : bool := check ccl k.
+Definition check_cplx (k : case QC) : bool := check ccl k && vt_consistent (c_vt k).
 Definition cMat := @LMat QC _.
 Definition cAff := @LAff QC _.
 Definition cSq := @LSq QC _.
